@@ -208,6 +208,11 @@ _txt('twostart', [
     Rule('start', [Alt([T('A')], alias='first'), Alt([T('B')], alias='second')]),
 ], [Term('A', 'a'), Term('B', ('re', 'a')), Term('SP', ' ')], ignore=['SP'], tags={'ambiguous', 'dyn'})
 
+# a keyword that the lexer folds into an identifier regexp (same priority); both are acceptable in exactly the same parser states
+_txt('kwfold', [
+    Rule('start', [[Grp([L('if')], [T('NAME')]), L('!')], [L('?'), L('?')]]),
+], [Term('NAME', ('re', '[a-z]+'))], tags={'lalr', 'kw'})
+
 # anonymous literals whose conventional names (PLUS, COMMA) are taken by user terminals with other patterns
 _txt('anoncollide', [
     Rule('start', [[Plus(Grp([T('PLUS'), L('+')], [T('COMMA'), L(',')]))]]),
